@@ -1,6 +1,6 @@
 (* C18 - non-vacuity examples and the counter-example for the code before the fix. *)
 From Coq Require Import List String Bool Arith NArith ZArith.
-From Storage Require Import Base.Bytes Db.Mvcc Db.MvccProofs Db.Workload Db.Access Db.AccessProofs.
+From Storage Require Import Base.Bytes Db.Mvcc Db.MvccProofs Db.MvccFailProofs Db.Workload Db.Access Db.AccessProofs.
 Import ListNotations.
 
 Arguments EBegin {query wtx}.
@@ -158,3 +158,29 @@ Example ex_captured_read_only_ok :
     [ {| h_name := "boltz.BaseStore.QueryIds";
          h_acc := [ {| a_loc := "boltz.NewBoolFuncSymbol$f"; a_kind := ARead; a_sync := false; a_via := "boltz.NewBoolFuncSymbol$lit1" |} ] |} ] = true.
 Proof. vm_compute. reflexivity. Qed.
+
+(* failed_transaction_leaves_no_trace on the workload: the transaction in the middle of ex_events that does
+   not commit (flag false - in the harness: a transaction that fails after its writes) satisfies the
+   hypothesis where it stands, and the system reached with it is the system reached without it; the
+   committed history has the same three versions *)
+Definition ex_failed : wtx := (false, [WPut (it 9 10 None 1 []); WDelete [1%N]]).
+Definition ex_before : list (event query wtx) :=
+  [ EBegin 0%nat; ECommit (true, [WPut (it 1 10 (Some 7%N) 5 [3%N]); WPut (it 2 11 None 2 [])]); EBegin 1%nat; ERead 1%nat QCount ].
+Definition ex_after : list (event query wtx) :=
+  [ ERead 0%nat QCount; ERead 1%nat (QName [10%N]); ECommit (true, [WDelete [2%N]]); EEnd 1%nat; EBegin 1%nat; ERead 1%nat QAll ].
+
+Example ex_failed_transaction_leaves_no_trace :
+  fails_at wstate query answer wtx apply_wtx
+    (run wstate query answer eval_query wtx apply_wtx (init wstate query answer empty_state 2) ex_before) ex_failed
+  /\ run wstate query answer eval_query wtx apply_wtx (init wstate query answer empty_state 2) (ex_before ++ ECommit ex_failed :: ex_after)
+     = run wstate query answer eval_query wtx apply_wtx (init wstate query answer empty_state 2) (ex_before ++ ex_after)
+  /\ List.length (versions _ _ _ (run wstate query answer eval_query wtx apply_wtx (init wstate query answer empty_state 2)
+                                   (ex_before ++ ECommit ex_failed :: ex_after))) = 3%nat
+  /\ serial_versions wstate wtx apply_wtx empty_state (commits query wtx (ex_before ++ ECommit ex_failed :: ex_after))
+     = serial_versions wstate wtx apply_wtx empty_state (commits query wtx (ex_before ++ ex_after)).
+Proof.
+  split; [intros st _; reflexivity|]. split; [|split].
+  - apply failed_transaction_leaves_no_trace_lemma. intros st _. reflexivity.
+  - vm_compute. reflexivity.
+  - vm_compute. reflexivity.
+Qed.
